@@ -23,12 +23,23 @@ LEVEL = "fault_enumeration"
 RULE = ("one execution = one operation (parse a response/request, build a signed or encrypted response) run while the tool follows one fault "
         "plan (site kind, position first/second/every, mode); non-trivial = the planned fault was actually injected (the driver log shows an "
         "event carrying the fault marker, or the tool could not be started); distinct = (site, message, position, mode)")
-ASSUMPTIONS = ["the fault catalogue is the one listed in MODES; 'exit status 1 while printing OK' is outside the property's wording and not asserted",
+ASSUMPTIONS = ["the fault catalogue is the one listed in VERIFY_MODES, GARBLED, NORESULT_MODES, DAMAGE_MODES and UNSTARTABLE; 'exit status 1 while printing OK' is outside the property's wording and not asserted",
                "libxmlsec1 driver as in C01"]
 
 VERIFY_MODES = ["exit1_silent", "exit0_silent", "segv_before", "kill_before", "segv_after", "kill_after", "text_not_ok",
                 "text_verification_ok", "text_ok_trailing", "text_ok_leading", "text_ok_lower", "text_ok_inline", "text_okay", "text_garbage",
                 "text_trunc", "trunc_output", "garble_output", "no_output"]
+# garbled diagnostics, byte for byte (mode hex<exit status>_<hex of stderr>): the word OK inside other text on the same line - set off by
+# characters that are line breaks only to Unicode-aware splitting (FF, VT, FS/GS/RS, NEL, LS, PS, a lone CR) - or next to bytes that
+# are not UTF-8 / NUL.  None of them is a report of success, whatever the exit status.
+GARBLED = {"ok-between-formfeeds": b"junk\x0cOK\x0cjunk\n", "ok-between-vtabs": b"a\x0bOK\x0bb\n", "ok-between-fs-gs": b"a\x1cOK\x1db\n", "ok-between-rs": b"a\x1eOK\x1eb\n",
+           "ok-between-nel": "a\u0085OK\u0085b\n".encode("utf-8"), "ok-between-ls": "a\u2028OK\u2028b\n".encode("utf-8"),
+           "ok-between-ps": "error: id \u2029OK\u2029 not found\n".encode("utf-8"), "ok-between-lone-crs": b"a\rOK\rb\n",
+           "ok-after-ls-then-fail": "func=x:error: uri=\u2028OK\u2028\nFAIL\n".encode("utf-8"),
+           "ok-amid-invalid-utf8": b"\xf8OK\x9d\n", "ok-split-by-invalid-byte": b"O\xffK\n", "ok-then-invalid-byte": b"OK\xff\n", "invalid-byte-then-ok": b"\xffOK\n",
+           "bom-ok": b"\xef\xbb\xbfOK\n", "ok-nul": b"OK\x00\n", "nul-ok": b"\x00OK\n", "o-nul-k": b"O\x00K\n", "latin1-nbsp-ok": b"\xa0OK\n"}
+GARBLED_MODES = ["hex%d_%s" % (rc, v.hex()) for k, v in sorted(GARBLED.items()) for rc in (0, 1)]
+GARBLED_NAME = {"hex%d_%s" % (rc, v.hex()): "%s(exit %d)" % (k, rc) for k, v in GARBLED.items() for rc in (0, 1)}
 NORESULT_MODES = ["exit1_silent", "exit0_silent", "no_output", "empty_output", "segv_before", "kill_before"]
 DAMAGE_MODES = ["trunc_output", "garble_output", "segv_after", "kill_after"]
 UNSTARTABLE = ["tool-missing", "tool-not-executable", "tool-is-directory"]
@@ -43,8 +54,10 @@ def gen_cases(tier, seed):
     for site in ("verify-response", "verify-assertion", "verify-both", "verify-request", "verify-assertion-in-encrypted"):
         for msg in ("valid", "tampered"):
             for pos in POSITIONS:
-                for mode in VERIFY_MODES:
+                for mode in VERIFY_MODES + GARBLED_MODES:
                     if tier == "quick" and pos == "2" and mode not in ("exit1_silent", "text_verification_ok", "segv_before", "exit0_silent"):
+                        continue
+                    if tier == "quick" and mode in GARBLED_MODES and (pos != "all" or (site not in ("verify-response", "verify-assertion") and msg == "valid")):
                         continue
                     cases.append({"id": "%s-%s-%s-%s" % (site, msg, pos, mode), "sig": [site, msg, pos, mode], "site": site, "msg": msg,
                                   "pos": pos, "mode": mode, "kind": "verify"})
@@ -54,7 +67,7 @@ def gen_cases(tier, seed):
     # metadata verification (remote loader with a verification certificate; HTTP object replaced by an in-process stub)
     for msg in ("valid", "tampered"):
         for pos in ("1", "all"):
-            for mode in VERIFY_MODES:
+            for mode in VERIFY_MODES + (GARBLED_MODES if pos == "all" else []):
                 cases.append({"id": "verify-metadata-%s-%s-%s" % (msg, pos, mode), "sig": ["verify-metadata", msg, pos, mode], "site": "verify-metadata",
                               "msg": msg, "pos": pos, "mode": mode, "kind": "verify"})
         for u in UNSTARTABLE:
@@ -156,7 +169,7 @@ def run_case(case, ctx):
     site, kind = case["site"], case["kind"]
     viol = []
     ident = {"givenName": ["Ann-marker-5c1e"], "mail": ["marker-77aa@example.org"]}
-    desc = "site=%s message=%s fault=%s at %s" % (site, case["msg"], case["mode"], case["pos"])
+    desc = "site=%s message=%s fault=%s at %s" % (site, case["msg"], GARBLED_NAME.get(case["mode"], case["mode"]), case["pos"])
     injected = 0
 
     def log_events():
